@@ -63,6 +63,13 @@ func c08Input(safe bool, name string, args []*variants.Variant) sx.SX {
 		as = append(as, valSXin(a))
 		oracleFor(a, &orc, seen)
 	}
+	fnOracle(name, args, &orc)
+	return sx.L(sx.B(safe), sx.S(name), as, orc)
+}
+
+// fnOracle adds the host answers a call of the named default function may need.
+func fnOracle(name string, args []*variants.Variant, out *sx.List) {
+	orc := *out
 	up := strings.ToUpper(name)
 	if mf, ok := mathFns[up]; ok && len(args) > 0 {
 		if x, ok := hostDouble(args[0]); ok {
@@ -119,7 +126,7 @@ func c08Input(safe bool, name string, args []*variants.Variant) sx.SX {
 			orc = append(orc, sx.L(sx.I(11), unixNs(t), sx.N(int(t.Weekday()))))
 		}
 	}
-	return sx.L(sx.B(safe), sx.S(name), as, orc)
+	*out = orc
 }
 
 func genC08(ctx *Ctx) {
